@@ -46,12 +46,18 @@ def strip_comments(src):
 class LeanSide:
     def __init__(self):
         self.lockfile = open(LEAN / ".buildlock", "w")
+        self.depth = 0
 
     def locked(self):
-        fcntl.flock(self.lockfile, fcntl.LOCK_EX)
+        """re-entrant: the check holds the lock from regeneration to the end of the audit"""
+        if self.depth == 0:
+            fcntl.flock(self.lockfile, fcntl.LOCK_EX)
+        self.depth += 1
 
     def unlock(self):
-        fcntl.flock(self.lockfile, fcntl.LOCK_UN)
+        self.depth -= 1
+        if self.depth == 0:
+            fcntl.flock(self.lockfile, fcntl.LOCK_UN)
 
     def build(self, modules, timeout=1500):
         """lake build of the named modules; returns (ok, log)"""
